@@ -18,6 +18,7 @@ MODEL_FIELDS = {
     "reimport": ["valid", "init", "same", "st"],
     "genvalidate": ["res"],
     "geninit": ["res", "st"],
+    "genload": ["res", "st"],
     "withoutmw": [],
     "withoutmwc": [],
     "pure": ["_"],
